@@ -124,6 +124,31 @@ def _same(a, b):
     return type(a) is type(b) and a == b
 
 
+class OracleFailed(Exception):
+    """the batch-wise in-memory destriping the output is compared with (the library's own destripe / saturation / Reader) raised
+    or returned something that is no batch of samples: there is nothing the output equals - EqualsBatchwise is false, it is not a
+    failure of this script"""
+
+
+def libcall(what, fn, *a, **k):
+    try:
+        return fn(*a, **k)
+    except Exception as e:  # noqa - raised by the code under test; nothing of this script runs inside fn
+        raise OracleFailed(f"{what}: {type(e).__name__}: {str(e)[:120]}") from e
+
+
+def as_block(what, x, shape):
+    """x as the real-valued array of the given shape it has to be, dtype untouched (OracleFailed if the library returned
+    anything else)"""
+    try:
+        a = np.asarray(x)
+        if a.dtype.kind not in "fiub" or a.shape != tuple(shape):
+            raise ValueError(f"{type(x).__name__} {a.dtype} {a.shape}, expected a real array {tuple(shape)}")
+        return a
+    except Exception as e:  # noqa
+        raise OracleFailed(f"{what} returned {type(e).__name__}: {str(e)[:120]}") from e
+
+
 def expected_batches(sc, data, labels, sr):
     """batch-wise in-memory destriping with the documented taper margins -> rows per canonical batch"""
     import scipy.signal
@@ -131,18 +156,25 @@ def expected_batches(sc, data, labels, sr):
     ns, NB = sc["ns"], sc["nbatch"]
     S = NB - 2 * T
     taper = np.r_[0, scipy.signal.windows.cosine((T - 1) * 2), 0]
-    h = header_of(sc) or sr.geometry
+    h = header_of(sc) or libcall("Reader.geometry", lambda: sr.geometry)
+    fs = libcall("Reader.fs", lambda: sr.fs + 0)
+    rv = as_block("Reader.range_volts", libcall("Reader.range_volts", lambda: sr.range_volts[:384]), (384,))
+    s2v = as_block("Reader.sample2volts", libcall("Reader.sample2volts", lambda: sr.sample2volts[:384]), (384,))
     out = np.zeros((ns, 385), dtype=np.float64)
     b = 0
     while True:
         f, l = b * S, min(b * S + NB, ns)
-        chunk = sr[f:l, :384].T
-        sat, mute = voltage.saturation(data=chunk, max_voltage=sr.range_volts[:384], fs=sr.fs)
+        chunk = as_block("Reader[rows, :384]", libcall("Reader[rows, :384]", lambda: sr[f:l, :384]), (l - f, 384)).T
+        res = libcall("saturation", voltage.saturation, data=chunk, max_voltage=rv, fs=fs)
+        if not isinstance(res, tuple) or len(res) != 2:
+            raise OracleFailed(f"saturation returned {type(res).__name__}, not (saturated samples, mute)")
+        mute = as_block("saturation (mute)", res[1], (l - f,))
         chunk[:, :T] *= taper[:T]
         chunk[:, -T:] *= taper[T:]
-        x = voltage.destripe(chunk, fs=sr.fs, h=h, channel_labels=labels if sc["reject"] else None,
-                             k_filter=sc["k_filter"], **filter_kwargs(sc, sr.fs))
-        x = x.T * mute[:, None] / sr.sample2volts[:384]
+        x = libcall("destripe", voltage.destripe, chunk, fs=fs, h=h, channel_labels=labels if sc["reject"] else None,
+                    k_filter=sc["k_filter"], **filter_kwargs(sc, fs))
+        x = as_block("destripe", x, (384, l - f))
+        x = x.T * mute[:, None] / s2v
         w = wrot_of(sc)
         if w is not None:
             x = np.dot(x, w) if np.ndim(w) == 2 else x * w
@@ -207,7 +239,7 @@ def leave_behind(sc, mode, out, outdir, qcdir, rowbytes, odt, binf):
         try:
             voltage.decompress_destripe_cbin(binf, output_file=out, nbatch=first["nbatch"], nprocesses=first["nproc"],
                                              ns2add=pad + 3, reject_channels=False, k_filter=False, wrot=np.eye(7))
-            return "the call with a 7 x 7 whitening matrix did not fail"
+            # the call with a 7 x 7 whitening matrix did not fail: what it left is a complete earlier output - a leftover as well
         except Exception:  # noqa
             pass
     else:
@@ -278,26 +310,39 @@ def main():
                 # options for the Reader (the recording read in its on-disk channel order): they hold for the parent's reader and
                 # for every worker's
                 kw["reader_kwargs"] = dict(sc["rkw"])
-            if sc.get("fkw"):
-                with spikeglx.Reader(c["binf"]) as sr0:
-                    kw.update(filter_kwargs(sc, sr0.fs))
-            # what the caller owns and may use again: the header, the option dictionaries (compared after the call)
-            mine = _snapshot(kw)
             a_in = str(c["binf"]) if as_str else c["binf"]
             a_out = None if sc.get("outdef") else (str(out) if as_str else out)
+            mine = _snapshot(kw)
+            print(f"CALLING {k}", flush=True)        # c06.run_real: no result after this line = the interpreter ended inside the call
             try:
+                if sc.get("fkw"):
+                    # the sampling rate for the filter settings is read the way a caller reads it (a Reader that cannot be opened
+                    # fails the call as well: same verdict)
+                    with spikeglx.Reader(c["binf"]) as sr0:
+                        kw.update(filter_kwargs(sc, sr0.fs))
+                # what the caller owns and may use again: the header, the option dictionaries (compared after the call)
+                mine = _snapshot(kw)
                 voltage.decompress_destripe_cbin(a_in, output_file=a_out, nbatch=c["nbatch"], nprocesses=c["nproc"],
                                                  ns2add=c["ns2add"], append=(k > 0),
                                                  reject_channels=sc["reject"], k_filter=sc["k_filter"],
                                                  wrot=wrot, **kw)
             except BaseException as e:  # noqa
                 r["exc"] = f"{type(e).__name__}: {str(e)[:200]}"
+            print(f"RETURNED {k}", flush=True)
             if not r["exc"] and not _same(mine, _snapshot(kw)):
                 changed = [k for k in mine if not _same(mine[k], kw.get(k))]
                 r["exc"] = f"CallerSettingsChanged: the call changed the caller's {changed}"
             evs = []
             for f in sorted(tracedir.glob("*.ndjson")):
-                evs += [json.loads(line) for line in f.read_text().splitlines()]
+                for line in f.read_text(errors="replace").splitlines():
+                    try:
+                        e = json.loads(line)
+                    except ValueError:
+                        e = None
+                    if isinstance(e, dict):
+                        evs.append(e)
+                    else:       # a cut / garbled line: c06.to_trace reports it (the events that are there are judged)
+                        evs.append({"ev": "Unreadable", "raw": line[:80]})
             r["events"] = evs
             r["size_rows"] = out.stat().st_size // rowbytes if out.exists() else -1
             r["size_exact"] = out.exists() and out.stat().st_size % rowbytes == 0
@@ -306,12 +351,17 @@ def main():
                 break
         ok = all(not r["exc"] for r in res["runs"])
         if ok:
-            # a missing file is an empty one: judged by the length / entry clauses, not a failure of this script
-            raw = np.fromfile(out, dtype=odt) if out.exists() else np.zeros(0, dtype=odt)
-            res["sha1"] = hashlib.sha1(raw.tobytes()).hexdigest()
-            res["size_exact"] = bool(raw.size % nc_out == 0)
+            # a missing file (or a name that is no file) is an empty one: judged by the length / entry clauses, not a failure of
+            # this script. Of a file many times longer than anything the calls could have written (a seek far beyond the end)
+            # only the beginning is read; its length is what the file system says.
+            size = out.stat().st_size if out.is_file() else 0
+            want = sum(c["ns"] + c["ns2add"] for c in calls) * rowbytes
+            cap = 8 * want + (1 << 20)
+            raw = np.fromfile(out, dtype=odt, count=min(size, cap) // odt.itemsize) if size else np.zeros(0, dtype=odt)
+            res["sha1"] = hashlib.sha1(raw.tobytes() + (b"" if size <= cap else f"+{size}".encode())).hexdigest()
+            res["size_exact"] = bool(size % rowbytes == 0)
             o = raw[:raw.size - raw.size % nc_out].reshape(-1, nc_out)
-            res["rows"] = int(o.shape[0])
+            res["rows"] = int(size // rowbytes)
             sync_bad, pad_bad, off = [], 0, 0
             blocks = []
             for k, c in enumerate(calls):
@@ -328,40 +378,66 @@ def main():
                         pad_bad += int(np.any(blk[ns:ns + pad] != blk[ns - 1][None, :]))
                 off += ns + pad
             # append mode: the file is the concatenation of the runs; runs of the same recording give equal blocks
-            res["append_bad"] = int(len(calls) > 1 and (o.shape[0] != off or any(
+            res["append_bad"] = int(len(calls) > 1 and (res["rows"] != off or any(
                 calls[k]["own"] and calls[0]["own"] and not np.array_equal(blocks[0], blocks[k]) for k in range(1, len(calls)))))
             res["sync_bad"] = sync_bad
             res["n_sync_bad"] = len(sync_bad)
             res["pad_bad"] = pad_bad
             def load(name):
                 try:
-                    return np.load(qcout / name)
-                except Exception:       # absent, or still the cut leftover of the earlier run  # noqa
+                    a = np.load(qcout / name)
+                    return a if isinstance(a, np.ndarray) else np.zeros(0)
+                except Exception:       # absent, empty, no array file, or still the cut leftover of the earlier run  # noqa
                     return np.zeros(0)
+
+            def entries(a):
+                """entries of a quality file = length of its first axis; an array without axes, or one whose elements are no real
+                numbers / booleans (strings, objects, complex), has none"""
+                return int(a.shape[0]) if a.ndim >= 1 and a.dtype.kind in "biuf" else 0
+
+            def quiet(fn, default):
+                try:
+                    return fn()
+                except Exception:       # the values are of no numeric type  # noqa
+                    return default
             rms = load("_iblqc_ephysTimeRmsAP.rms.npy")
             tms = load("_iblqc_ephysTimeRmsAP.timestamps.npy")
             sat = load("_iblqc_ephysSaturation.samples.npy")
-            res["rms_rows"] = int(rms.shape[0])
-            res["time_rows"] = int(tms.shape[0])
-            res["rms_finite"] = bool(np.all(np.isfinite(rms)))
-            res["sat_len"] = int(sat.shape[0])
-            res["sat_count"] = int(sat.sum())
+            res["rms_rows"] = entries(rms)
+            res["time_rows"] = entries(tms)
+            res["rms_finite"] = quiet(lambda: bool(np.all(np.isfinite(rms))), False)
+            res["sat_len"] = entries(sat)
+            res["sat_count"] = quiet(lambda: int(np.count_nonzero(sat)), -1)
             if sc.get("compare"):
                 # the scenario's own recording: the last block
                 ns = sc["ns"]
                 boff = off - (calls[-1]["ns"] + calls[-1]["ns2add"])
-                sr = spikeglx.Reader(binf, **(sc.get("rkw") or {}))
-                labels = voltage.detect_bad_channels_cbin(sr) if sc["reject"] else None
-                exp = expected_batches(sc, data, labels, sr)
-                blk = o[boff:boff + ns]
-                m = min(ns, blk.shape[0])          # a short output is judged by the length clauses; compare what exists
-                got = blk[:m, :384].astype(np.float64)
-                # integer output: the code truncates; a floating point output is compared as it is
-                ref = np.trunc(exp[:m, :384]) if odt.kind == "i" else exp[:m, :384]
-                res["max_lsb_diff"] = float(np.max(np.abs(got - ref))) if m else 0.0
-                res["frac_gt1"] = float(np.mean(np.abs(got - ref) > 1.0 + 1e-6)) if m else 0.0
-                res["out_std"] = float(got.std())
-                sr.close()
+                BIG = 1e9       # no finite difference: NaN / inf in a floating point output, or nothing to compare with
+                sr = None
+                try:
+                    sr = libcall("Reader()", spikeglx.Reader, binf, **(sc.get("rkw") or {}))
+                    labels = libcall("detect_bad_channels_cbin", voltage.detect_bad_channels_cbin, sr) if sc["reject"] else None
+                    exp = expected_batches(sc, data, labels, sr)
+                    blk = o[boff:boff + ns]
+                    m = min(ns, blk.shape[0])          # a short output is judged by the length clauses; compare what exists
+                    got = blk[:m, :384].astype(np.float64)
+                    # integer output: the code truncates; a floating point output is compared as it is
+                    ref = np.trunc(exp[:m, :384]) if odt.kind == "i" else exp[:m, :384]
+                    with np.errstate(all="ignore"):
+                        diff = np.abs(got - ref)
+                        diff[~np.isfinite(diff)] = BIG
+                    res["max_lsb_diff"] = float(min(np.max(diff), BIG)) if m else 0.0
+                    res["frac_gt1"] = float(np.mean(diff > 1.0 + 1e-6)) if m else 0.0
+                    res["out_std"] = float(np.nan_to_num(got.std(), nan=BIG, posinf=BIG, neginf=-BIG))
+                except OracleFailed as e:
+                    res["max_lsb_diff"] = BIG
+                    res["oracle_exc"] = str(e)
+                finally:
+                    try:
+                        if sr is not None:
+                            sr.close()
+                    except Exception:  # noqa
+                        pass
     except BaseException as e:  # noqa
         res["exc"] = f"{type(e).__name__}: {e}\n{traceback.format_exc()[-1500:]}"
     print("RESULT " + json.dumps(res))
